@@ -138,6 +138,18 @@ def draw_text(rng):
         text = ''.join(parts)
     if rng.random() < 0.04:
         text = rng.choice(['', '\n', ' ', ';', '-- only a comment'])
+    if rng.random() < 0.1 and text:
+        # characters that some layer may treat specially: other line
+        # separators (str.splitlines() knows VT, FF, FS-US, NEL, LS, PS),
+        # tabs, letters whose case mapping changes their length, astral
+        # characters (surrogate pairs in UTF-16), combining marks, NBSP
+        ch = rng.choice(['\t', '\x0b', '\x0c', '\x1c', '\x1e', '\x85',
+                         '\u2028', '\u2029', '\u00df', '\u0130', '\u0131',
+                         '\U0001d4b3', 'e\u0301', '\u00a0', '\u200b',
+                         '\ufeff', '\x7f'])
+        for _ in range(rng.choice([1, 1, 3])):
+            p = rng.randrange(len(text) + 1)
+            text = text[:p] + ch + text[p:]
     if rng.random() < 0.05:
         # texts that *begin* like an encoding signature in some other
         # encoding: U+FEFF itself, or the Latin-1 characters whose bytes
